@@ -350,6 +350,69 @@ func checkMain(args []string) {
 			lines = append(lines, fmt.Sprintf("VIOLATION property=%s replay=%s", id, path))
 		}
 	}
+	// ---- thorough tier: every scenario replay of the property runs on the current tree ----
+	// (a scenario is the run-time evaluation of contracts on the real code over a hand-picked family of
+	// inputs or schedules; on the unchanged tree all of them pass, a failure is a violation with a replay)
+	var scen []map[string]interface{}
+	if tier == "thorough" {
+		seenF := map[string]bool{}
+		var files []string
+		for _, f := range ps.Scenarios {
+			if !seenF[f] {
+				seenF[f] = true
+				files = append(files, f)
+			}
+		}
+		sort.Strings(files)
+		for _, f := range files {
+			srcB, err := os.ReadFile(filepath.Join(verif, "replay", f))
+			if err != nil {
+				engineError("scenario %s missing", f)
+			}
+			src := string(srcB)
+			rel := scenarioPkg(src)
+			t1 := time.Now()
+			failedS, out, cases := runReplay(repo, rel, src, 600)
+			if strings.HasPrefix(out, "REPLAY-ERROR") {
+				engineError("scenario %s did not run: %s", f, tail(out, 20))
+			}
+			scen = append(scen, map[string]interface{}{"scenario": f, "cases": cases, "failed": failedS, "secs": time.Since(t1).Seconds()})
+			if failedS {
+				name := "scenario:" + f
+				// a scenario that demonstrates an open known finding fails by design
+				knownScen := false
+				for pat, file := range ps.Scenarios {
+					if file != f {
+						continue
+					}
+					re, err := regexp.Compile(pat)
+					if err != nil {
+						continue
+					}
+					for _, kfd := range kf.Findings {
+						if kfd.Property == id && kfd.Status == "open" && re.MatchString(kfd.Obligation) {
+							knownScen = true
+						}
+					}
+				}
+				if knownScen {
+					lines = append(lines, fmt.Sprintf("KNOWN-FINDING: property=%s the scenario %s reproduces a listed open finding on the real code", id, f))
+					continue
+				}
+				if fd := matchFindingName(kf, id, name); fd != nil {
+					lines = append(lines, fmt.Sprintf("KNOWN-FINDING: property=%s %s [%s]", id, fd.What, name))
+					continue
+				}
+				violations++
+				rf := &ReplayFile{Property: id, Obligation: name, Class: "scenario", PkgRel: rel, TestSource: src, TestOutput: tail(out, 40), Outcome: "reproduced",
+					Note: "scenario replay failed on the current tree"}
+				path := filepath.Join(verif, "replays", id+"-"+sanitize(strings.ReplaceAll(name, ":", "_"))+".json")
+				b, _ := json.MarshalIndent(rf, "", " ")
+				os.WriteFile(path, b, 0o644)
+				lines = append(lines, fmt.Sprintf("VIOLATION property=%s replay=%s obligation=%s", id, path, name))
+			}
+		}
+	}
 	// stale findings: an open finding whose obligation no longer fails
 	for _, f := range kf.Findings {
 		if f.Property != id || f.Status != "open" {
@@ -419,7 +482,7 @@ func checkMain(args []string) {
 			"functions_under_contract": fnsEv,
 			"by_backend":               bbEv, "slowest": slowest, "samples": samples,
 			"canaries":  map[string]int{"planted": nCanary, "shown_reachable": nCanaryReach},
-			"undecided": undecidedFns, "bounded": bounded, "undecided_fallback_rac": fallback,
+			"undecided": undecidedFns, "bounded": bounded, "scenarios_run": scen, "undecided_fallback_rac": fallback,
 			"known_findings_hit": knownHit, "open_findings_not_counted_as_obligations": len(knownHit), "not_decided": ps.NotDecided, "decided_under_another_property": decidedElsewhere,
 			"load_secs": tLoad, "solver_timeout_s": secs,
 			"contract_files": w.Specs.Files,
